@@ -1,6 +1,73 @@
 import PgFdr.Json
+import PgFdr.Model.C12
 namespace PgFdr.Driver
 open Lean PgFdr
+
+namespace C12io
+
+def jpep (j : Json) : R C17.PepVal :=
+  match j with
+  | .str "nan" => .ok .nan
+  | .str "inf" => .ok .inf
+  | _ => do pure (.fin (← jrat j))
+
+def ofPep : C17.PepVal → Json
+  | .nan => .str "nan"
+  | .inf => .str "inf"
+  | .fin q => ofRat q
+
+def jrow (j : Json) : R C12.Row := do
+  let inten ← match jgetOpt j "int" with
+    | none => pure none
+    | some v => do pure (some (← jrat v))
+  pure
+    { id := ← jint (← jget j "id")
+      peptide := ← jstr (← jget j "pep")
+      charge := ← jint (← jget j "z")
+      experiment := ← jstr (← jget j "exp")
+      fraction := ← jstr (← jget j "frac")
+      leading := ← jstrs (← jget j "prot")
+      intensity := inten
+      pep := ← jpep (← jget j "pp")
+      silac := ← jlist jrat (← jget j "silac")
+      tmt := ← jlist jrat (← jget j "tmt") }
+
+/-- a PrecursorQuant: `[peptide, charge, experiment, fraction, intensity|null, pep, tmt, silac, id]` -/
+def ofRow (r : C12.Row) : Json :=
+  .arr #[.str r.peptide, ofInt r.charge, .str r.experiment, .str r.fraction,
+    (match r.intensity with | none => .null | some x => ofRat x), ofPep r.pep,
+    ofList ofRat r.tmt, ofList ofRat r.silac, ofInt r.id]
+
+def jibaq (j : Json) : R (String × Nat) := do
+  match j with
+  | .arr #[p, n] => pure (← jstr p, ← jnat n)
+  | _ => .error s!"expected [protein, n], got {j.compress}"
+
+def ofGroup (g : C12.GroupOut) : Json :=
+  obj [("ids", ofStrs g.ids), ("quants", ofList ofRow g.quants), ("counts", ofList ofNat g.counts),
+    ("idType", ofStrs g.idType), ("total", ofRat g.total), ("intens", ofList ofRat g.intens),
+    ("nPeps", ofList ofNat g.nPeps), ("ibaqTotal", ofRat g.ibaqTotal), ("ibaq", ofList ofRat g.ibaq),
+    ("tmt", ofList ofRat g.tmt), ("evidenceIds", ofList ofInt g.evidenceIds)]
+
+end C12io
+
+open C12io in
+/-- `{"op":"quant","rows":[{id,pep,z,exp,frac,prot,int,pp,silac,tmt}…],"groups":[[protein…]…],
+     "level":[num,den],"ibaq":[[protein,n]…]}` →
+    `{"experiments","nSilac","nTmt","peps","cutoff","attached":[[pq…]…],"groups":[{ids,quants,counts,
+      idType,total,intens,nPeps,ibaqTotal,ibaq,tmt,evidenceIds}…]}` or `{"err":"bad_silac_channels"}` -/
+def handleQuant (j : Json) : R Json := do
+  let rows ← jlist jrow (← jget j "rows")
+  let groups ← jgroups (← jget j "groups")
+  let level ← jrat (← jget j "level")
+  let ibaq ← jlist jibaq (← jget j "ibaq")
+  match C12.quantify rows groups level ibaq with
+  | .error e => pure (ofErr e)
+  | .ok o =>
+    pure (obj [("experiments", ofStrs o.experiments), ("nSilac", ofInt o.nSilac), ("nTmt", ofInt o.nTmt),
+      ("peps", ofList ofPep o.peps), ("cutoff", ofRat o.cutoff),
+      ("attached", ofList (ofList ofRow) o.attached), ("groups", ofList ofGroup o.groups)])
+
 /-- protocol handlers of property C12: (op name, handler) -/
-def handlersC12 : List (String × (Json → R Json)) := []
+def handlersC12 : List (String × (Json → R Json)) := [("quant", handleQuant)]
 end PgFdr.Driver
